@@ -152,3 +152,41 @@ Lemma ex5_nil_receiver :
   run_from ex5 VNil (VPtr ex5_d) = Panic
   /\ (exists s, run_from ex5 (VPtr ex5_dirty) (VPtr ex5_d) = Ok (VPtr s)).
 Proof. split; [vm_compute; reflexivity | eexists; vm_compute; reflexivity]. Qed.
+
+(* ------------------------------------------------------------- C15 examples *)
+From Shoot Require Import Model.MapperSpec15.
+
+Definition want15_to (ps : pairspec) (v : val) : option val :=
+  spec15_to (ps_env ps) (ps_fuel ps) (usem_of ps) (ps_jobs ps) run_fuel "T" v.
+
+Lemma ex6_guard : pair_guard15 (ps_env ex6) (ps_fuel ex6) (ps_jobs ex6) = true.
+Proof. vm_compute. reflexivity. Qed.
+
+Lemma ex6_plan :
+  option_map (fun a => (pl_ctor (a_to a), summary (a_to a))) (analyse id_oracle (job_of ex6 "T")) =
+  Some (Some [(["id"], CVal {| r_name := "ID"; r_path := ["ID"]; r_acc := false |} SAssign);
+              (["name"], CVal {| r_name := "Name"; r_path := ["Name"]; r_acc := false |} SAssign);
+              (["count"], CVal {| r_name := "Count"; r_path := ["Count"]; r_acc := false |} (SConv (TBasic BInt32) (TBasic BInt64)));
+              (["in"], CZero (TNamed PDst "Inner"));
+              (["amount"], CVal {| r_name := "Amount"; r_path := ["Amount"]; r_acc := false |} (SFunc "F0"))],
+        [("SetIn", "In", SMap false false "Inner" "Inner", [])]).
+Proof. vm_compute. reflexivity. Qed.
+
+(* through the constructor and the setter the same values arrive as with plain exported fields *)
+Lemma ex6_values :
+  run_to ex6 (VPtr ex6_v) =
+    Ok (VPtr (VStruct [("id", VInt 7); ("name", VStr "n"); ("count", VInt (-3));
+                       ("in", VStruct [("A", VInt 4); ("B", VInt 0)]); ("amount", VInt 5)]))
+  /\ run_to ex6p (VPtr ex6_v) =
+    Ok (VPtr (VStruct [("Id", VInt 7); ("Name", VStr "n"); ("Count", VInt (-3));
+                       ("In", VStruct [("A", VInt 4); ("B", VInt 0)]); ("Amount", VInt 5)]))
+  /\ want15_to ex6 (VPtr ex6_v) = out_opt (run_to ex6 (VPtr ex6_v)).
+Proof. vm_compute. repeat split; reflexivity. Qed.
+
+(* ex7: the constructor prefers the conversion to the mapper method (a = 1, C05 prescribes F(1) = 6) and a
+   constructor-only sub-struct field stays zero (C05 prescribes In.ToDest()) *)
+Lemma ex7_ctor_findings :
+  run_to ex7 (VPtr ex7_v) = Ok (VPtr (VStruct [("a", VInt 1); ("in", VStruct [("A", VInt 0); ("B", VInt 0)])]))
+  /\ want15_to ex7 (VPtr ex7_v) = Some (VPtr (VStruct [("a", VInt 6); ("in", VStruct [("A", VInt 4); ("B", VInt 0)])]))
+  /\ pair_guard15 (ps_env ex7) (ps_fuel ex7) (ps_jobs ex7) = false.
+Proof. vm_compute. repeat split; reflexivity. Qed.
